@@ -464,6 +464,65 @@ func runC19(c *Ctx) (int, error) {
 			events[len(events)-1]["exit"] = 0
 		}
 	}
+	// a directory of TLC-enumerated schemas (every type expression of the shape universe in both array spellings, and a
+	// sample of the definition sequences), without the constructs the pinned formatter is known to damage: one run of
+	// bebopfmt -w must succeed and every file must still hold its schema
+	{
+		pcases, _, perr := genParseCases(c, "Gen_Parse", "Wellformed Export", "")
+		if perr != nil {
+			return 2, perr
+		}
+		dir := filepath.Join(c.Work, "cli", "corpus")
+		sub := filepath.Join(dir, "schemas")
+		_ = os.MkdirAll(sub, 0o755)
+		texts := map[string]string{}
+		openFmt := map[string]bool{}
+		for _, d := range c.OpenDevs("C16", "C17") {
+			openFmt[d] = true
+		}
+		for ci, pc := range pcases {
+			if pc.Part != "types" && !(pc.Part == "seq" && (ci+c.Seed)%7 == 0) && !(pc.Part == "items" && (ci+c.Seed)%5 == 0) {
+				continue
+			}
+			skip := false
+			for i, t := range pc.Tokens {
+				if (t == ":" && openFmt["fmt_unsupported:typed_enum"]) || (t == "flags" && openFmt["fmt_unsupported:flags"]) || (t == "import" && openFmt["fmt_unsupported:import"]) {
+					skip = true
+				}
+				if openFmt["fmt_unsupported:multidim_array"] && i+3 < len(pc.Tokens) && t == "[" && pc.Tokens[i+1] == "]" && pc.Tokens[i+2] == "[" && pc.Tokens[i+3] == "]" {
+					skip = true
+				}
+			}
+			if skip {
+				continue
+			}
+			p := filepath.Join(sub, fmt.Sprintf("%s%d.bop", pc.Part, pc.Ci))
+			texts[p] = ast.Render(pc.Tokens, ast.Layouts[(ci+c.Seed)%len(ast.Layouts)])
+			_ = os.WriteFile(p, []byte(texts[p]), 0o644)
+		}
+		var anyPath string
+		for p := range texts {
+			if anyPath == "" || p < anyPath {
+				anyPath = p
+			}
+		}
+		if anyPath != "" {
+			before, _ := os.ReadFile(anyPath)
+			r, err := runTraced(filepath.Join(bindir, "bebopfmt"), []string{"-w", sub}, dir, sub, "")
+			if err != nil {
+				return 2, infra("%v", err)
+			}
+			emitRun("bebopfmt", fmt.Sprintf("a directory of %d enumerated schemas", len(texts)), r, anyPath, before, false, true)
+			for p, text := range texts {
+				now, _ := os.ReadFile(p)
+				if !sameSchema([]byte(text), now) {
+					events[len(events)-1]["all_same"] = false
+					events[len(events)-1]["msg"] = "e.g. " + filepath.Base(p) + ": " + text
+					break
+				}
+			}
+		}
+	}
 	// several path arguments, and the same command again (files already formatted by the first run): a failure on any
 	// argument must show in the exit status, files that cannot be processed stay untouched, and EVERY file of the
 	// directory still holds the schema it held before
